@@ -427,7 +427,7 @@ func clampedBothN(v ssa.Value, d ssa.Value, depth int) bool {
 		if !isIf {
 			continue
 		}
-		c, pos, isCmp := ana.AsCmp(iff.Cond)
+		c, pos, isCmp := ana.AsCmpDir(iff.Cond, token.GTR)
 		if isCmp && pos && c.Op == token.GTR && c.X == raw && isCeilTimes(c.Y, d, 0.0005) && rb.Succs[0] == ph.Block().Preds[1-i] {
 			upper = true
 		}
@@ -441,6 +441,6 @@ func clampedBothN(v ssa.Value, d ssa.Value, depth int) bool {
 	if !isIf {
 		return false
 	}
-	c, pos, isCmp := ana.AsCmp(iff.Cond)
+	c, pos, isCmp := ana.AsCmpDir(iff.Cond, token.LSS)
 	return isCmp && pos && c.Op == token.LSS && c.X == ssa.Value(ph) && isCeilTimes(c.Y, d, -0.0005)
 }
